@@ -1352,7 +1352,10 @@ exit:
   if (nsent > 0)
     return nsent;
 
-  if (r < 0) {
+  /* Only a failed system call (-1) left its reason in errno; an error code
+   * from uv__udp_prep_pkt() or uv__udp_sendmsg1() is returned as it is.
+   */
+  if (r == -1) {
     r = UV__ERR(errno);
     if (errno == EAGAIN || errno == EWOULDBLOCK || errno == ENOBUFS)
       r = UV_EAGAIN;
